@@ -23,9 +23,9 @@ REACH = {
 
 
 def bounds(tier):
-    n = 20 if tier == "thorough" else 18
+    n = 21 if tier == "thorough" else 18
     return {
-        "H03a": "fully symbolic buffers: SOMEIPSDHeader.parse 0..%d bytes; SOMEIPSDEntry.parse 0..17 bytes with symbolic option count; SOMEIPSDOption.parse 0..%d bytes and, per registered type, exact-size and off-by-one payloads; SOMEIPHeader.parse: see C01/H01b" % (n, 9 if tier == "thorough" else 8),
+        "H03a": "fully symbolic buffers: SOMEIPSDHeader.parse 0..%d bytes; SOMEIPSDEntry.parse 0..17 bytes with symbolic option count; SOMEIPSDOption.parse 0..%d bytes and, per registered type, exact-size and off-by-one payloads; SOMEIPHeader.parse: see C01/H01b" % (n, 10 if tier == "thorough" else 8),
         "H03t": "3 SD templates (all entry types, all option kinds) and the SOME/IP frame: windows of %s symbolic bytes at every position, truncation at every position, inserted symbolic byte, duplicated regions" % ("1, 2 (every position), 3 (every 4th) and 4 (every 2nd)" if tier == "thorough" else "1 (every position) and 4 (every 4th)"),
         "H03b": "live ServiceDiscoveryProtocol (watch-all listener, announced instance with server listener, one accepted offer and one subscription) and SimpleService with three handlers: same template family through datagram_received on both channels; twin endpoint receives the datagram with the rejected messages removed",
     }
@@ -33,14 +33,14 @@ def bounds(tier):
 
 def cases(tier, seed):
     out = []
-    nmax = 20 if tier == "thorough" else 18
+    nmax = 21 if tier == "thorough" else 18
     for n in range(0, nmax + 1):
         out.append({"h": "H03a", "dec": "sd", "n": n, "_w": 1 + (n > 12) * 10 ** max(0, (n - 12) // 4)})
     for n in range(0, 18):
         out.append({"h": "H03a", "dec": "entry", "n": n})
-    for n in range(0, (10 if tier == "thorough" else 9)):
+    for n in range(0, (11 if tier == "thorough" else 9)):
         out.append({"h": "H03a", "dec": "option", "n": n, "_w": 2 + 4 ** max(0, n - 6)})
-    for ty, size in ((1, 6), (2, 5), (2, 6), (4, 9), (4, 10), (6, 21), (0x14, 9), (0x16, 21), (0x24, 8), (0x26, 21)):
+    for ty, size in ((1, 7 if tier == "thorough" else 6), (2, 5), (2, 6), (4, 9), (4, 10), (6, 21), (0x14, 9), (0x16, 21), (0x24, 8), (0x26, 21)):
         out.append({"h": "H03a", "dec": "option-typed", "type": ty, "size": size, "_w": 2})
     for variant in (0, 1, 2):
         base = template_sd(variant)
